@@ -2,7 +2,7 @@
 //
 // Cases (first element = tag); a NAL unit value is written (ref type payload):
 //   (1 data)                  NewNALU().UnmarshalBinary(data), then MarshalBinary
-//                             -> (0 ref type payload bytes) | (1 1)
+//                             -> (0 ref type payload bytes) | (1)
 //   (2 ref type payload)      NALU.MarshalBinary, then UnmarshalBinary of the result
 //                             -> (0 bytes ref' type' payload' Size())
 //   (3 lsm1 (nalu...))        AVCSample.MarshalBinary, then UnmarshalBinary on a fresh sample
@@ -30,20 +30,19 @@
 //                               (5 k which ref type data)    append a new unit;   (6 k which) list = nil
 //                               (7 k ver prof compat level lsm1) scalar fields (sample: lengthSizeMinusOne = lsm1)
 //                               (8 k1 k2)       MarshalBinary of both slots from two goroutines, both results kept
-//                             -> ((out...) (slot0 slot1 slot2 slot3)); out = (0 ...) | (1 code) | (2) | (-1);
+//                             -> ((out...) (slot0 slot1 slot2 slot3)); out = (0 ...) | (1) | (2) | (-1);
 //                             the Marshal entries (0 bytes) / (0 bytes1 bytes2) are read from the kept slices
 //                             after the last operation; a Data slice that gets replaced is overwritten.
 //   (11 lsm1 ((ref type len fill)...))   LARGE sample given compactly (payload byte i = fill + 31 i + i/256):
 //                             MarshalBinary, UnmarshalBinary of the result on a fresh sample
-//                             -> (|bytes| adler32(bytes) (0)|(1 code)|(2) ((ref type |payload| adler32)...))
+//                             -> (|bytes| adler32(bytes) (0)|(1)|(2) ((ref type |payload| adler32)...))
 //   (12 prof compat level lsm1 (spec...) (spec...))   LARGE record, likewise
 //                             -> (|bytes| adler32 <res> ver prof compat level lsm1 (sum...) (sum...))
 //   (13 kind a b)             oracle-only marker for sizes >= 2^24 bytes that are not fed to the model -> (0)
-//   <sdec> = (0 (nalu...)) | (1 code (nalu...)) | (2)            (NALUs appended so far)
-//   <rdec> = (0 ver prof compat level lsm1 (sps...) (pps...)) | (1 code ver ... (pps...)) | (2)
-// Error codes: 1 empty NALU, 2 "requires 6+", 3 "requires 2+ only" (SPS length), 4 "requires n
-// only" (parameter set body), 5 "no PPS length", 6 "requiers 2+" (PPS length), 8 sample
-// "requires k+ only", 9 sample "requires n only".
+//   <sdec> = (0 (nalu...)) | (1 (nalu...)) | (2)            (NALUs appended so far)
+//   <rdec> = (0 ver prof compat level lsm1 (sps...) (pps...)) | (1 ver ... (pps...)) | (2)
+// An error is observed as (1 ...) without any code: the wording of error messages is not part of
+// the property, the partial state left behind is.
 //
 // Direct oracles (independent of the Coq model): reference writers and parsers for the NAL
 // unit header (ISO 14496-10 7.3.1), the AVCDecoderConfigurationRecord (ISO 14496-15 5.2.4.1.1)
@@ -54,11 +53,9 @@ import (
 	"bytes"
 	"fmt"
 	"hash/adler32"
-	"strings"
 	"sync"
 	"testing"
 
-	oe "github.com/ossrs/go-oryx-lib/errors"
 )
 
 type vC12N struct {
@@ -268,29 +265,8 @@ func vC12Bytes(ns []vC12N) [][]byte {
 }
 
 // ---------- running the implementation ----------
-func vC12Code(err error, sample bool) int {
-	m := oe.Cause(err).Error()
-	plus := strings.Contains(m, "+ only")
-	switch {
-	case m == "empty NALU":
-		return 1
-	case m == "no PPS length":
-		return 5
-	case strings.HasPrefix(m, "requiers 2+"):
-		return 6
-	case sample && strings.HasPrefix(m, "requires ") && plus:
-		return 8
-	case sample && strings.HasPrefix(m, "requires "):
-		return 9
-	case strings.HasPrefix(m, "requires 6+"):
-		return 2
-	case strings.HasPrefix(m, "requires 2+"):
-		return 3
-	case strings.HasPrefix(m, "requires "):
-		return 4
-	}
-	return 99
-}
+// an error observation never depends on the error's wording: it is "error" plus the partial state
+func vC12Err() vSx { return vL(vZ(1)) }
 
 type vC12RDec struct {
 	panicked bool
@@ -312,7 +288,7 @@ func (d vC12RDec) obs() vSx {
 		return vPanicObs()
 	}
 	if d.err != nil {
-		return vLs(append([]vSx{vZ(1), vI(vC12Code(d.err, false))}, d.rec.fields()...))
+		return vLs(append([]vSx{vZ(1)}, d.rec.fields()...))
 	}
 	return vLs(append([]vSx{vZ(0)}, d.rec.fields()...))
 }
@@ -338,7 +314,7 @@ func (d vC12SDec) obs() vSx {
 		return vPanicObs()
 	}
 	if d.err != nil {
-		return vL(vZ(1), vI(vC12Code(d.err, true)), vC12NsSx(d.nalus))
+		return vL(vZ(1), vC12NsSx(d.nalus))
 	}
 	return vL(vZ(0), vC12NsSx(d.nalus))
 }
@@ -388,7 +364,7 @@ func vC12Run(c vSx) (r vC12Res) {
 		data := c.l[1].b
 		u := NewNALU()
 		if err := u.UnmarshalBinary(data); err != nil {
-			r.obs = vErr(vC12Code(err, false))
+			r.obs = vC12Err()
 			if len(data) > 0 {
 				r.bad("nalu-read", fmt.Sprintf("non-empty NAL unit %s rejected: %v", vC12Hex(data), err))
 			}
@@ -423,7 +399,7 @@ func vC12Run(c vSx) (r vC12Res) {
 		}
 		u := NewNALU()
 		if err := u.UnmarshalBinary(b); err != nil {
-			r.obs = vOk(vB(b), vErr(vC12Code(err, false)))
+			r.obs = vOk(vB(b), vC12Err())
 			r.bad("nalu-rt", "own output rejected: "+err.Error())
 			return
 		}
@@ -639,7 +615,7 @@ func vC12Run(c vSx) (r vC12Res) {
 			return
 		}
 		d, _ := vC12SampleUnmarshal(lsm1, b)
-		r.obs = vL(vI(len(b)), vU(uint64(adler32.Checksum(b))), vC12ResSx(d.panicked, d.err, true), vC12SumSx(d.nalus))
+		r.obs = vL(vI(len(b)), vU(uint64(adler32.Checksum(b))), vC12ResSx(d.panicked, d.err), vC12SumSx(d.nalus))
 		r.bigSample(lsm1, ns, b, d)
 	case 12:
 		rec := vC12Rec{ver: 1, prof: c.l[1].int(), compat: c.l[2].int(), level: c.l[3].int(), lsm1: c.l[4].int(), sps: vC12Specs(c.l[5]), pps: vC12Specs(c.l[6])}
@@ -651,7 +627,7 @@ func vC12Run(c vSx) (r vC12Res) {
 		}
 		d := vC12RecUnmarshal(NewAVCDecoderConfigurationRecord(), b)
 		x := d.rec
-		r.obs = vL(vI(len(b)), vU(uint64(adler32.Checksum(b))), vC12ResSx(d.panicked, d.err, false), vI(x.ver), vI(x.prof), vI(x.compat), vI(x.level), vI(x.lsm1),
+		r.obs = vL(vI(len(b)), vU(uint64(adler32.Checksum(b))), vC12ResSx(d.panicked, d.err), vI(x.ver), vI(x.prof), vI(x.compat), vI(x.level), vI(x.lsm1),
 			vC12SumSx(x.sps), vC12SumSx(x.pps))
 		r.bigRecord(rec, b, d)
 	case 13:
@@ -731,12 +707,12 @@ func vC12SumSx(ns []vC12N) vSx {
 	return vLs(items)
 }
 
-func vC12ResSx(panicked bool, err error, sample bool) vSx {
+func vC12ResSx(panicked bool, err error) vSx {
 	switch {
 	case panicked:
 		return vPanicObs()
 	case err != nil:
-		return vErr(vC12Code(err, sample))
+		return vC12Err()
 	}
 	return vL(vZ(0))
 }
@@ -948,7 +924,7 @@ func (r *vC12Res) history(c vSx) {
 				outs = append(outs, vPanicObs())
 				r.bad("no-panic", "UnmarshalBinary panicked inside a history: "+msg)
 			case err != nil:
-				outs = append(outs, vErr(vC12Code(err, o.kind == 1)))
+				outs = append(outs, vC12Err())
 			case o.kind == 2:
 				outs = append(outs, vL(vZ(0), vC12From(o.nal).sx()))
 			default:
